@@ -959,12 +959,13 @@ def evaluate(ctx, progs, tag, trace_n=0, want_code=True):
     res = []
     for i, p in enumerate(progs):
         v = vals[i]
-        if v is None or v.startswith("#") or v.count("@") < 5:
+        if v is None or v.startswith("#") or v.count("@") < 6:
             ctx.broken.append("model evaluation failed for a program (coq_eval): %s -> %s" % (ws[i][:200], v))
             res.append(None)
             continue
-        src, ev, cur, nt, acc, code = v.split("@", 5)
-        res.append(dict(src=src, spec=ev, model=cur, nontrivial=(nt == "T"), closed_accesses=int(acc), code=code, prog=p))
+        src, ev, cur, nt, acc, dk, code = v.split("@", 6)
+        res.append(dict(src=src, spec=ev, model=cur, nontrivial=(nt == "T"), closed_accesses=int(acc), code=code, prog=p,
+                        discipline=dk[:1], cellrun_equal=dk[1:2]))
     # ablation only where the model differs from the Spec
     dev = [d for d in res if d is not None and d["model"] != d["spec"] and "#stuck" not in d["spec"]]
     if dev:
@@ -1014,6 +1015,14 @@ def judge(ctx, d, stats, tags=None, variant=None):
     stats["evaluated"] += 1
     if d["nontrivial"]:
         stats["nontrivial"].add(d["src"])
+    if d.get("discipline") == "T":
+        stats["discipline_kept"] += 1
+        if d.get("cellrun_equal") != "T":
+            ctx.broken.append("run over the cell store differs from the run over Upvalues.v although the discipline was kept "
+                              "(contradicts backend_swap): %s" % d["src"][:300])
+    elif d.get("discipline") == "F" and not known_class_of(d, p):
+        ctx.broken.append("the code of compile_scope pops / truncates a captured slot (discipline of upvalues_refine_cells "
+                          "violated): %s" % d["src"][:300])
     if d.get("code_mismatch"):
         ctx.corr_broken.append("compile_scope != real compiler: %s | %s" % (d["code_mismatch"][:400], d["src"][:300]))
     if "#stuck" in model and model != impl:
@@ -1094,7 +1103,7 @@ def refspec_compare(ctx, ds, stats, tag):
 def new_stats():
     return {"evaluated": 0, "discarded_stuck": 0, "nontrivial": set(), "known": {}, "known_witness": {}, "traced": 0,
             "trace_steps": 0, "ev_captures": 0, "ev_closes": 0, "ev_returns": 0, "ev_unwinds": 0, "ev_switches": 0,
-            "max_open": 0, "mtrace_equal": 0, "refspec_compared": 0, "refspec_disagree": 0, "refspec_failed": 0}
+            "max_open": 0, "mtrace_equal": 0, "discipline_kept": 0, "refspec_compared": 0, "refspec_disagree": 0, "refspec_failed": 0}
 
 
 def script_traces(ctx, stats):
@@ -1267,6 +1276,7 @@ def run(ctx):
         "traces_validated_against_impl": stats["traced"] + nscripts, "trace_steps": stats["trace_steps"],
         "trace_events": {k[3:]: v for k, v in stats.items() if k.startswith("ev_")}, "max_open_list_length": stats["max_open"],
         "model_machine_traces_equal": stats["mtrace_equal"],
+        "discipline_kept_and_cell_store_run_equal": stats["discipline_kept"],
         "full_reference_interpreter": {"compared": stats["refspec_compared"], "disagree": stats["refspec_disagree"], "unparsed": stats["refspec_failed"]}, "repo_scripts_traced": nscripts,
         "model_config": json.load(open(os.path.join(yvlib.COQ, "gen", "manifest.json"))).get("c06", {}),
     })
